@@ -380,9 +380,16 @@ instance : (i : Nat) → (xs : List Ins) → (ms : List Smp) → Decidable (Slot
   | _, [], _ :: _ => isFalse (by simp [SlotsOk])
   | _, _ :: _, [] => isFalse (by simp [SlotsOk])
 
+/-- the order list reaches a pattern before any end-of-song marker (0xff); 0xfe entries are skipped.
+A song that starts with the end marker has no playable position and `libxmp_scan_sequences` refuses it. -/
+def playable (ords : Bytes) : Bool :=
+  match ords.dropWhile (· == 0xfe) with
+  | o :: _ => o.toNat < 0xfe
+  | [] => false
+
 /-- Well-formed S3M song + writer options -/
 def WellFormed (s : Module) (o : Opts) : Prop :=
-  NameOk 28 s.name ∧ (1 ≤ s.chn ∧ s.chn ≤ 32) ∧ (o.ffi = 1 ∨ o.ffi = 2) ∧
+  NameOk 28 s.name ∧ playable s.orders = true ∧ (1 ≤ s.chn ∧ s.chn ≤ 32) ∧ (o.ffi = 1 ∨ o.ffi = 2) ∧
   (∀ k ∈ List.range s.chn, o.chset k ≠ 0xff) ∧ s.orders.length ≤ 255 ∧ s.ins.length ≤ 255 ∧
   (1 ≤ s.pats.length ∧ patCount s.orders s.pats.length = s.pats.length) ∧
   (∀ p ∈ s.pats, PatOk s.chn p) ∧ SlotsOk 0 s.ins s.smps ∧
